@@ -1005,7 +1005,9 @@ pub fn run(tier: &str, seed: u64, s: &mut Sink) {
                     let (resp, _) = resp_of(kind);
                     let n = length(&mut r).min(300);
                     let (sig, _) = pulses(&mut r, &resp, n);
-                    emit_scale(s, kind, k, if kabs > 500 { "u" } else { "a" }, &sig);
+                    // in-domain waveforms (amplitudes 1..1e4): the predicate MUST hold up to |k| = 400 (so that the
+                    // theorem is exercised non-vacuously far from k = 0), must fail beyond 500, either in between
+                    emit_scale(s, kind, k, if kabs > 500 { "u" } else if kabs <= 400 { "s" } else { "a" }, &sig);
                 }
             }
         }
@@ -1051,6 +1053,16 @@ pub fn run(tier: &str, seed: u64, s: &mut Sink) {
         for first in firsts {
             let sd = r.next() >> 16;
             emit_rel(s, format!("rel17block {sd} {first}+{len}"), if len == 1 { "rel-block-single" } else { "rel-block" });
+        }
+    }
+    if !thorough {
+        // the cross-talk matrix handed to the Cholesky factorisation (`.unwrap()` in deconvolution/wires.rs) depends
+        // on the block LENGTH only: every length once, also in the quick tier
+        for len in 1..=256usize {
+            if !lens.contains(&len) {
+                let sd = r.next() >> 16;
+                emit_rel(s, format!("rel17block {sd} {}+{len}", (300 - len) % 256), "rel-block-every-length");
+            }
         }
     }
     for i in 0..(if thorough { 150 } else { 16 }) {
